@@ -171,6 +171,7 @@ class FakeNet:
         self.clock = None       # optional VClock for contact timestamps
         self.contacts = []      # (time, sockaddr, ok) for every connect() attempt
         self.keep_sent = False
+        self.gai_log = []       # (host, port, callid) of every getaddrinfo
         self.raised = []        # exception objects raised because a server is failing (identity matters to C13)
         self.sentlog = []       # (callid, sockid, bytes) when keep_sent
         self.sendinfo = {}      # (callid, idx) -> (replying commands, reply bytes) of that sendall
@@ -249,6 +250,7 @@ class FakeNet:
     # -- socket module API ------------------------------------------------------
     def getaddrinfo(self, host, port, family=0, type=0, proto=0, flags=0):
         k = self._step(T_GAI, None)
+        self.gai_log.append((host, port, self.ctx.call))
         if k:
             raise make_exc(k)
         try:
